@@ -409,6 +409,160 @@ def _cmp_hist(steps, r):
     return None
 
 
+# ------------------------------------------------------------------ Field objects with stored positions (GSV.Model.Pipe.fStep)
+def _field_hist_case(rng, gs, add):
+    """One SRF / vector-field SRF / Krige object on a LIVE model through a history of in-place model setters, model replacements,
+    calls with / without positions and set_condition with / without positions.  Recorded per operation (public observables only):
+    setter status; for a call the returned field and a snapshot of what the computation consists of at that moment (a copy of the
+    generator / of the model's covariance function); for set_condition the assembled kriging matrix.  Compared afterwards with
+    GSV.Model.Pipe.fRun: field = generator(copy)(model's isometrized tuple); right-hand sides = cf(model's distances between the stored
+    _krige_pos and the isometrized targets); matrix block = cov(model's distances among _krige_pos)."""
+    import copy
+    import gstools.krige.base as KB
+    kind = ["srf", "krige", "krige", "vector"][int(rng.randint(4))]
+    if kind == "vector":
+        dim = 2 if rng.rand() < 0.85 else 3
+    elif kind == "srf":
+        dim = int(rng.randint(1, 3)) if rng.rand() < 0.85 else int(rng.randint(3, 5))
+    else:
+        dim = int(rng.randint(1, 5))
+    Model = [gs.Exponential, gs.Gaussian][int(rng.randint(2))]
+    var = float(np.round(rng.uniform(0.5, 3), 3))
+    nug = float(rng.choice([0.0, 0.0, 0.25])) if kind == "krige" else 0.0
+
+    def ctor_args():
+        ang, an = gen_angles(rng, dim), gen_anis(rng, dim)
+        ls = gen_len_list(rng, dim) if rng.rand() < 0.4 else [float(np.round(np.exp(rng.uniform(-0.5, 1.0)), 3))]
+        return ls, an, ang
+
+    def make(ls, an, ang):
+        with warnings.catch_warnings(), np.errstate(all="ignore"):
+            warnings.simplefilter("ignore")
+            return Model(dim=dim, var=var, nugget=nug, len_scale=ls if len(ls) > 1 else ls[0], anis=an if an else 1.0, angles=ang if ang else 0.0)
+    ls, an, ang = ctor_args()
+    ls = [x if x > 0 else 1.0 for x in ls]
+    model = make(ls, an, ang)
+    seed = int(rng.randint(1, 10 ** 6))
+    lops, recs, trace = [], [], []
+    cap = {}
+    orig_c = KB.calc_field_krige_and_variance_c
+
+    def spy_k(mat_, vecs, cond, num_threads=None):
+        cap["vecs"] = np.array(vecs, copy=True)
+        return orig_c(mat_, vecs, cond, num_threads)
+
+    def pinv_k(mat_):
+        cap["mat"] = np.array(mat_, copy=True)
+        return np.linalg.pinv(mat_)
+
+    def rnd_pos(n):
+        return np.round(rng.randn(dim, n) * 3, 3)
+    KB.calc_field_krige_and_variance_c = spy_k
+    try:
+        with warnings.catch_warnings():
+            warnings.simplefilter("ignore")
+            if kind == "krige":
+                n = int(rng.randint(1, 6))
+                cpos, cval = rnd_pos(n), rng.randn(n)
+                obj = [gs.krige.Simple, gs.krige.Ordinary][int(rng.randint(2))](model, cpos, cval, pseudo_inv_type=pinv_k)
+                lops.append({"k": "cond", "n": n, "pos": proto.fbits(cpos)})
+                recs.append(("cond", cap["mat"][:n, :n].copy(), copy.deepcopy(obj.model), float(obj.cond_err) if np.ndim(obj.cond_err) == 0 else 0.0))
+                trace.append(["Krige(model, cond_pos)", cpos.tolist()])
+            else:
+                obj = gs.SRF(model, seed=seed, mode_no=int(rng.randint(2, 9)), **({"generator": "VectorField"} if kind == "vector" else {}))
+            for _ in range(int(rng.randint(2, 9))):
+                r = rng.rand()
+                if r < 0.34:
+                    (k, v), = gen_history(rng, dim, nops=1, dims=(dim,))
+                    st = apply_op(obj.model, (k, v))
+                    lops.append({"k": "dim", "d": int(v)} if k == "dim" else {"k": k, "v": proto.fbits(_as_list(v))})
+                    recs.append(("status", st))
+                    trace.append([k, v, st])
+                elif r < 0.44:
+                    l2, a2, g2 = ctor_args()
+                    try:
+                        obj.model = make(l2, a2, g2)
+                        st = "ok"
+                    except ValueError:
+                        st = "ValueError"
+                    lops.append({"k": "replace", "dim": dim, "len_scale": proto.fbits(l2), "anis": proto.fbits(a2 if a2 else [1.0]),
+                                 "angles": proto.fbits(g2 if g2 else [0.0])})
+                    recs.append(("status", st))
+                    trace.append(["obj.model = Model(...)", l2, a2, g2, st])
+                elif r < 0.82 or kind != "krige":
+                    given = rng.rand() < 0.45
+                    pos = rnd_pos(int(rng.randint(1, 6))) if given else None
+                    lops.append({"k": "call", "n": int(pos.shape[1]), "pos": proto.fbits(pos)} if given else {"k": "call"})
+                    trace.append(["call", pos.tolist() if given else "stored positions"])
+                    try:
+                        f = obj(pos) if given else obj()
+                    except ValueError:
+                        recs.append(("status", "ValueError"))
+                        continue
+                    if kind == "krige":
+                        cf = copy.deepcopy(obj.model)
+                        recs.append(("kcall", cap["vecs"][:obj.cond_no, :].copy(), cf))
+                    else:
+                        recs.append(("fcall", np.array(f, dtype=float), copy.deepcopy(obj.generator)))
+                else:
+                    given = rng.rand() < 0.35
+                    if given:
+                        n = int(rng.randint(1, 6))
+                        cpos, cval = rnd_pos(n), rng.randn(n)
+                        obj.set_condition(cpos, cval)
+                        lops.append({"k": "cond", "n": n, "pos": proto.fbits(cpos)})
+                    else:
+                        obj.set_condition()
+                        lops.append({"k": "cond"})
+                    n = obj.cond_no
+                    recs.append(("cond", cap["mat"][:n, :n].copy(), copy.deepcopy(obj.model), float(obj.cond_err) if np.ndim(obj.cond_err) == 0 else 0.0))
+                    trace.append(["set_condition", cpos.tolist() if given else "no arguments"])
+    finally:
+        KB.calc_field_krige_and_variance_c = orig_c
+    case = {"object": kind, "model": Model.__name__, "dim": dim, "var": var, "nugget": nug, "len_scale": ls, "anis": an, "angles": ang,
+            "seed": seed, "history": trace}
+    add({"op": "pipe_hist", "dim": dim, "len_scale": proto.fbits(ls), "anis": proto.fbits(an if an else [1.0]),
+         "angles": proto.fbits(ang if ang else [0.0]), "ops": lops},
+        f"Field object history ({kind}): stored positions / _krige_pos follow GSV.Model.Pipe.fStep", recs, "field_hist", case)
+    return kind, [o["k"] + ("" if o["k"] not in ("call", "cond") else (":given" if "pos" in o else ":stored")) for o in lops]
+
+
+def _cmp_field_hist(recs, r):
+    """first difference between the recorded real observations and the model's run (None = agree)"""
+    if isinstance(r, (str, dict)) or len(r) != len(recs):
+        return f"model answered {r if isinstance(r, (str, dict)) else len(r)} for {len(recs)} operations"
+    for i, (rec, m) in enumerate(zip(recs, r)):
+        if rec[0] == "status":
+            if m != rec[1]:
+                return f"operation {i}: status {rec[1]} (gstools) vs {m if isinstance(m, str) else m[0]} (model)"
+            continue
+        if isinstance(m, str):
+            return f"operation {i}: gstools succeeded, model says {m}"
+        if rec[0] == "fcall":
+            if m[0] != "iso":
+                return f"operation {i}: model output kind {m[0]}"
+            iso = mat(m[1]) if m[1] and m[1][0] else np.zeros((len(m[1]), 0))
+            with warnings.catch_warnings():
+                warnings.simplefilter("ignore")
+                want = np.asarray(rec[2](iso, add_nugget=False), dtype=float)
+            if not (want.shape == rec[1].shape and close_mat(want, rec[1], 1e-10)):
+                return (f"operation {i}: field {rec[1].tolist()} (gstools) vs generator at the model's isometrized tuple {want.tolist()}")
+        elif rec[0] == "kcall":
+            if m[0] != "iso" or m[2] is None:
+                return f"operation {i}: model has no _krige_pos / output kind {m[0]}"
+            want = rec[2].covariance(mat(m[2]))
+            if not (want.shape == rec[1].shape and close_mat(want, rec[1], 1e-11)):
+                return f"operation {i}: kriging right-hand sides {rec[1].tolist()} (gstools) vs cov(model's distances) {want.tolist()}"
+        elif rec[0] == "cond":
+            if m[0] != "kpos":
+                return f"operation {i}: model output kind {m[0]}"
+            dcc = mat(m[2])
+            want = rec[2].covariance(dcc) + np.diag(np.full(dcc.shape[0], rec[3]))
+            if not (want.shape == rec[1].shape and close_mat(want, rec[1], 1e-11)):
+                return f"operation {i}: kriging matrix {rec[1].tolist()} (gstools) vs cov(model's distances among _krige_pos) {want.tolist()}"
+    return None
+
+
 # ------------------------------------------------------------------ correspondence
 def correspondence(ctx):
     import gstools as gs
@@ -545,6 +699,12 @@ def correspondence(ctx):
         for k, _v in _hist_case(rng, gs, add):
             dist["history op: " + k] = dist.get("history op: " + k, 0) + 1
 
+    # Field objects (SRF / vector-field SRF / Krige) on a live model: stored positions, stored _krige_pos, in-place changes, replacements
+    for t in range(ctx.scale(100, 1200)):
+        fk, fops = _field_hist_case(rng, gs, add)
+        for k in fops:
+            dist[f"field history ({fk}) op: " + k] = dist.get(f"field history ({fk}) op: " + k, 0) + 1
+
     res = proto.run_driver(ops)
     dis, samples = [], []
     seen = set()
@@ -602,6 +762,10 @@ def correspondence(ctx):
                 got = _cmp_hist(exp, r)
                 ok = got is None
                 exp = [(st, {k_: _tolist(v_) for k_, v_ in o.items()}) for st, o in exp] if not ok else None
+            elif kind == "field_hist":
+                got = _cmp_field_hist(exp, r)
+                ok = got is None
+                exp = None
         except Exception as e:  # malformed driver answer
             ok = False
             got = f"{type(e).__name__}: {e}"
@@ -618,7 +782,9 @@ def correspondence(ctx):
                     "or non-unit ratio in the class; whole ang2dir calls: 0-4 rows x 0-5 angles in [-4pi,4pi] x 10 input forms x dim None / "
                     "match / 2 / wrong; histories: live model objects of 6 classes, constructor (scalar / per-axis len_scale) + 1-8 setters "
                     "(anis, angles, len_scale scalar / list, dim 1-4, single-entry re-assignments, rejected values), state and a random "
-                    "subset of the geometry read after every step",
+                    "subset of the geometry read after every step; Field objects (SRF, vector-field SRF, Simple / Ordinary kriging) on a live model: "
+                    "2-8 operations out of in-place setters / model replacement / call with or WITHOUT positions / set_condition with or without "
+                    "positions, every returned field, right-hand side and kriging matrix against GSV.Model.Pipe.fRun",
             "samples": samples, "disagreements": dis[:20], "distribution": dist}
 
 
@@ -745,6 +911,240 @@ class RefModel:
 def _viol(viol, key, what, case, **kw):
     if len(viol) < 12:
         viol.append(dict({"key": key, "what": what, "case": case}, **kw))
+
+
+# ------------------------------------------------------------------ pipelines evaluated on STORED positions
+STORED_KINDS = ["srf", "krige", "srf_struct", "condsrf", "vector", "krige_struct", "srf", "condsrf_struct"]
+
+
+def _clamp_ops(rng, ops, intscale=0.15):
+    """moderate ratios keep kriging systems well conditioned; per-axis integral scales are a second way to write a list"""
+    out = []
+    for k, v in ops:
+        if k == "anis" and isinstance(v, list):
+            v = [float(min(max(a, 0.25), 4.0)) if a > 0 else a for a in v]
+        if k == "len" and isinstance(v, list):
+            v = [float(min(max(a, 0.4), 4.0)) if a > 0 else a for a in v]
+            if rng.rand() < intscale and all(a > 0 for a in v):
+                k = "intscale"
+        out.append((k, v))
+    return out
+
+
+def _flat_pos(P, mesh, d):
+    """the (d x n) point table of a stored position tuple (structured: the 'ij' grid, flattened in C order)"""
+    if mesh == "structured":
+        return np.array(np.meshgrid(*P, indexing="ij")).reshape(d, -1)
+    return np.asarray(P, dtype=float).reshape(d, -1)
+
+
+def _search_stored(ctx, rng, gs, viol, n_trials):
+    """One Field object (SRF / structured SRF / vector-field SRF / Krige / CondSRF) is built on a LIVE model object and given positions
+    (by a call or by set_pos).  Then, one or several times: the model held by the object is changed IN PLACE (angles / anis / per-axis
+    len_scale or integral_scale list / scalar len_scale / dim re-assignment / rejected values) or REPLACED by another model object;
+    kriging objects are refreshed the documented way (set_condition() without positions) - or the library itself changes the held model
+    in place (set_condition(fit_variogram=True), directional fit of an anisotropic start model); the object is evaluated WITHOUT position
+    argument (obj(), obj(seed=...), obj.structured(), obj.unstructured()).  Oracles: (a) the same pipeline class with a FRESH isotropic
+    unrotated model at the independently transformed stored positions S^-1 R^T x (conditioning points transformed alike), (b) a brand-new
+    object with a freshly constructed anisotropic model that is GIVEN the positions.  Now and then new positions are passed (and become
+    the stored ones).  Anything an object (or its model) remembers of transformed coordinates from an earlier evaluation shows here."""
+    ev = 0
+    kinds, opcount, hows = {}, {}, {}
+    cheap = [gs.Exponential, gs.Gaussian]
+    other = [gs.Matern, gs.Stable, gs.Rational, gs.Spherical, gs.Cubic, gs.HyperSpherical]
+    for t in range(n_trials):
+        kind = STORED_KINDS[t % len(STORED_KINDS)]
+        struct = kind.endswith("_struct")
+        base = kind.split("_")[0]
+        gen_based = base != "krige"          # a generator without analytic sampler (any class in dim >= 3, most classes) costs 20-70 ms per object
+        if base == "vector":
+            dim = 2 if rng.rand() < 0.88 else 3
+        elif gen_based:
+            dim = int(rng.randint(1, 3)) if rng.rand() < 0.88 else int(rng.randint(3, 4 if struct else 5))
+        elif struct:
+            dim = int(rng.randint(1, 4))
+        else:
+            dim = int(rng.randint(1, 5)) if t % 3 else int(rng.randint(2, 4))
+        Mcls = cheap[int(rng.randint(2))] if (rng.rand() < (0.95 if gen_based else 0.6) or base == "vector") else other[int(rng.randint(len(other)))]
+        if Mcls in (gs.Cubic, gs.Spherical) and dim > 3:
+            dim = 3
+        costly = gen_based and (dim >= 3 or Mcls not in cheap)
+        var = float(np.round(np.exp(rng.uniform(-1, 1)), 3))
+
+        def new_model():
+            ang0, anis0 = gen_angles(rng, dim), [float(min(max(a, 0.25), 4.0)) for a in gen_anis(rng, dim)]
+            ls0 = [float(min(max(x, 0.4), 4.0)) if x > 0 else 1.0 for x in gen_len_list(rng, dim)] if rng.rand() < 0.4 \
+                else [float(np.round(np.exp(rng.uniform(-0.5, 1)), 4))]
+            with warnings.catch_warnings():
+                warnings.simplefilter("ignore")
+                m_ = Mcls(dim=dim, var=var, len_scale=ls0 if len(ls0) > 1 else ls0[0], anis=anis0 if anis0 else 1.0,
+                          angles=ang0 if ang0 else 0.0)
+            return m_, RefModel(dim, ls0, anis0 if anis0 else [1.0], ang0 if ang0 else [0.0]), [ls0, anis0, ang0]
+        try:
+            model, ref, ctor = new_model()
+        except ValueError:
+            continue
+        seed = int(rng.randint(1, 2**31 - 1))
+        # some kriging objects get their model changed IN PLACE by the library itself: set_condition(fit_variogram=True) fits the held
+        # model (directional fit for an anisotropic start model: the ratios change) before the setup is rebuilt
+        # (kriging only: a fitted nugget > 0 adds fresh random noise to every conditioned field)
+        fit_trial = base == "krige" and dim >= 2 and rng.rand() < 0.3
+        ncond = int(rng.randint(14, 25)) if fit_trial else int(rng.randint(3, 8))
+        cpos, cval = rng.randn(dim, ncond) * 3, rng.randn(ncond)
+        Kcls = [gs.krige.Ordinary, gs.krige.Simple][int(rng.randint(2))]
+        mode_no = 32
+
+        def build(m_, cp):
+            if base == "srf":
+                return gs.SRF(m_, seed=seed, mode_no=mode_no)
+            if base == "vector":
+                return gs.SRF(m_, generator="VectorField", seed=seed, mode_no=mode_no)
+            k_ = Kcls(m_, cp, cval)
+            return k_ if base == "krige" else gs.CondSRF(k_, seed=seed, mode_no=mode_no)
+
+        def new_pos():
+            if struct:
+                return [np.sort(rng.randn(int(rng.randint(2, 4))) * 3) for _ in range(dim)], "structured"
+            return rng.randn(dim, int(rng.randint(3, 9))) * 3, "unstructured"
+
+        def evaluate(o, P=None, mesh=None, how="plain"):
+            """raw result of one evaluation, flattened to (..., n) in C order"""
+            kw = {}
+            if P is not None:
+                kw = dict(pos=P, mesh_type=mesh)
+            if how == "seed" and base != "krige":
+                kw["seed"] = seed
+            if how == "method":
+                f = (o.structured if (mesh or o.mesh_type) == "structured" else o.unstructured)(**{k_: v_ for k_, v_ in kw.items() if k_ != "mesh_type"})
+            else:
+                f = o(**kw)
+            if base == "krige":
+                return np.array([np.ravel(f[0]), np.ravel(f[1])])
+            f = np.asarray(f, dtype=float)
+            return f.reshape(dim, -1) if base == "vector" else f.reshape(1, -1)
+
+        case = {"pipeline": kind, "model": Mcls.__name__, "dim": dim, "var": var, "ctor": ctor, "krige": Kcls.__name__ if base in ("krige", "condsrf") else None,
+                "seed": seed, "steps": []}
+        try:
+            with warnings.catch_warnings():
+                warnings.simplefilter("ignore")
+                obj = build(model, cpos)
+                P, mesh = new_pos()
+                how0 = ["call", "set_pos"][int(rng.rand() < 0.35)]
+                if how0 == "call":
+                    evaluate(obj, P, mesh)
+                else:
+                    obj.set_pos(P, mesh)
+                case["steps"].append(["store:" + how0, mesh, [np.asarray(a).tolist() for a in P]])
+                hows["store:" + how0] = hows.get("store:" + how0, 0) + 1
+                bad, had_int = False, False
+                for rnd in range(1 if costly else int(rng.randint(1, 4))):
+                    last_state = (ref.L, list(ref.anis), list(ref.angles))
+                    # ---- the change: in-place setters on the model the object holds, or a replacement of the model object
+                    fitted = False
+                    if fit_trial and rnd == 0:
+                        kobj = obj if base == "krige" else obj.krige
+                        try:
+                            kobj.set_condition(fit_variogram=True)
+                        except (RuntimeError, ValueError):
+                            bad = True
+                            break
+                        mm = obj.model
+                        ref = RefModel(dim, [float(mm.len_scale)], [float(a) for a in mm.anis] or [1.0], [float(a) for a in mm.angles] or [0.0])
+                        had_int, fitted = True, True
+                        case["steps"].append(["set_condition(fit_variogram=True)", dict(len_scale=float(mm.len_scale), var=float(mm.var), nugget=float(mm.nugget),
+                                                                                     anis=[float(a) for a in mm.anis], angles=[float(a) for a in mm.angles])])
+                        opcount["fit_variogram"] = opcount.get("fit_variogram", 0) + 1
+                    elif rng.rand() < 0.15:
+                        model, ref, ctor2 = new_model()
+                        obj.model = model
+                        case["steps"].append(["replace-model", ctor2])
+                        opcount["replace-model"] = opcount.get("replace-model", 0) + 1
+                        had_int = False
+                    else:
+                        ops = _clamp_ops(rng, gen_history(rng, dim, nops=int(rng.randint(1, 3)), dims=(dim,)))
+                        for op in ops:
+                            try:
+                                ref.apply(op)
+                                want_st = "ok"
+                            except ValueError:
+                                want_st = "ValueError"
+                            st = apply_op(obj.model, op)
+                            key = op[0] + ("-list" if isinstance(op[1], list) and len(op[1]) > 1 else "")
+                            opcount[key] = opcount.get(key, 0) + 1
+                            case["steps"].append([op[0], op[1], st])
+                            had_int |= op[0] == "intscale" and st == "ok"
+                            if st != want_st:        # setter status is the subject of the history block above
+                                bad = True
+                                break
+                        if bad:
+                            break
+                    now_state = (ref.L, list(ref.anis), list(ref.angles))
+                    flat_l = [last_state[0]] + last_state[1] + last_state[2]
+                    flat_n = [now_state[0]] + now_state[1] + now_state[2]
+                    if not had_int and flat_l != flat_n and len(flat_l) == len(flat_n) and np.all(np.isclose(flat_l, flat_n)):
+                        bad = True              # inside the np.isclose band of the generators' model comparison: C11 / C17 (known finding)
+                        break
+                    # ---- documented refresh of a kriging setup after model properties were changed
+                    if base in ("krige", "condsrf") and not fitted:
+                        kobj = obj if base == "krige" else obj.krige
+                        if rng.rand() < 0.25:
+                            kobj.set_condition(cond_val=cval)
+                            case["steps"].append(["set_condition(cond_val=same values)"])
+                        else:
+                            kobj.set_condition()
+                            case["steps"].append(["set_condition()"])
+                    # ---- evaluation WITHOUT positions, or (sometimes) with new given positions
+                    given = rng.rand() < 0.25
+                    if given:
+                        P, mesh = new_pos()
+                    how = ["plain", "seed", "method"][int(rng.randint(3))]
+                    got = evaluate(obj, P if given else None, mesh if given else None, how)
+                    case["steps"].append(["evaluate", "given positions" if given else "stored positions", how] + ([[np.asarray(a).tolist() for a in P]] if given else []))
+                    hows[("given:" if given else "stored:") + how] = hows.get(("given:" if given else "stored:") + how, 0) + 1
+                    # ---- oracles
+                    d, M = ref.dim, ref.matrix()
+                    L = float(obj.model.len_scale)
+                    if not had_int and not np.isclose(L, ref.L, rtol=1e-15, atol=0):
+                        bad = True              # reported by the history block (history:len_scale)
+                        break
+                    pub = dict(dim=d, var=float(obj.model.var), len_scale=L, nugget=float(obj.model.nugget), **{k_: getattr(obj.model, k_) for k_ in obj.model.opt_arg})
+                    iso_m = Mcls(**pub)
+                    fresh_m = Mcls(anis=ref.anis if ref.anis else 1.0, angles=ref.angles if ref.angles else 0.0, **pub)
+                    X = _flat_pos(P, mesh, d)
+                    iso_o = build(iso_m, M @ cpos)
+                    fresh_o = build(fresh_m, cpos)
+                    tol = 1e-9
+                    if base in ("krige", "condsrf"):
+                        cond = np.linalg.cond((fresh_o if base == "krige" else fresh_o.krige)._krige_mat)
+                        if not np.isfinite(cond) or cond > 1e6:
+                            break
+                        tol = 1e-12 * cond * 100 + 1e-9
+                    want_iso = evaluate(iso_o, M @ X, "unstructured")
+                    want_fresh = evaluate(fresh_o, P, mesh)
+                    ev += 3
+                    sfx = ":given-positions" if given else ":stored-positions"
+                    if not (got.shape == want_iso.shape and np.allclose(got, want_iso, rtol=tol, atol=tol)):
+                        _viol(viol, f"pipeline:{base}{sfx}:after-model-change", f"{kind}: after the model of the object was changed in place / replaced"
+                              + (" and the kriging setup refreshed by set_condition() [or the model fitted in place by set_condition(fit_variogram=True)]" if base in ("krige", "condsrf") else "") + ", an evaluation "
+                              + ("with given positions" if given else "WITHOUT position argument (stored positions)") + " differs from the same pipeline with the fresh "
+                              "isotropic model at S⁻¹Rᵀx of the CURRENT (angles, anis)", dict(case, final=[d, L, ref.anis, ref.angles]),
+                              max_dev=float(np.max(np.abs(got - want_iso))) if got.shape == want_iso.shape else None)
+                        bad = True
+                        break
+                    if not (got.shape == want_fresh.shape and np.allclose(got, want_fresh, rtol=tol, atol=tol)):
+                        _viol(viol, f"pipeline:{base}{sfx}:vs-fresh-object", f"{kind}: after the model of the object was changed in place / replaced, an evaluation "
+                              + ("with given positions" if given else "WITHOUT position argument (stored positions)") + " differs from a brand-new object with a freshly "
+                              "constructed model (current public values) that is given the positions", dict(case, final=[d, L, ref.anis, ref.angles]))
+                        bad = True
+                        break
+                if bad:
+                    continue
+        except Exception as e:
+            ctx.log(f"search: stored-positions {kind} {Mcls.__name__} dim={dim} raised {type(e).__name__}: {e}")
+            continue
+        kinds[kind] = kinds.get(kind, 0) + 1
+    return ev, kinds, opcount, hows
 
 
 def search(ctx, deep=False):
@@ -1079,6 +1479,11 @@ def search(ctx, deep=False):
             _viol(viol, f"history:pipeline:{kind}", f"{kind} with a model object changed in place differs from the fresh isotropic model at S⁻¹Rᵀx "
                   "of the current (dim, angles, anis)", dict(case, final=[ref.dim, ref.L, ref.anis, ref.angles]))
 
+    # ---------------- pipelines evaluated on stored positions after the model was changed in place / replaced
+    nstore = ctx.scale(160, 2000) * (2 if deep else 1)
+    ev_st, st_kinds, st_ops, st_hows = _search_stored(ctx, rng, gs, viol, nstore)
+    ev += ev_st
+
     # ---------------- pipelines
     npipe = ctx.scale(180, 1500) * (2 if deep else 1)
     models = [gs.Gaussian, gs.Exponential, gs.Matern, gs.Stable, gs.Spherical, gs.Linear, gs.Cubic, gs.Rational,
@@ -1207,4 +1612,6 @@ def search(ctx, deep=False):
                        f"{nang} whole ang2dir calls (1-4 directions, 1-3(5) angles, dim= None/match/2/wrong, angles in [-4pi,4pi]) vs ISO "
                        f"80000-2 formulas, single-direction / permutation / full-turn relations: {ang_forms}; {nhist} live model objects "
                        f"walked through setter histories {hist_ops} with uses before each change {hist_uses}: state vs independent "
-                       f"bookkeeping, geometry vs S⁻¹Rᵀ after every step, pipelines after the history vs fresh isotropic model: {hist_pipes}"}
+                       f"bookkeeping, geometry vs S⁻¹Rᵀ after every step, pipelines after the history vs fresh isotropic model: {hist_pipes}; "
+                       f"{nstore} Field objects on a live model evaluated, model changed in place / replaced {st_ops} (kriging refreshed by set_condition()), "
+                       f"evaluated again {st_hows} vs fresh isotropic model at S⁻¹Rᵀ(stored positions) and vs a brand-new object given the positions: {st_kinds}"}
